@@ -209,6 +209,7 @@ func vrtTier() int {
 	return 0
 }
 func vrtEventCount(kind string) int { return 0 }
+func vrtUntouched(v any) bool       { return true }
 
 func vrtKnown(id string, inRegion bool) bool { return inRegion }
 
@@ -350,6 +351,32 @@ func vrtDoc(name string, depth int, universe int, childUniverse int) any {
 	d := vrtNext("doc")
 	return vrtBuild(d.V)
 }
+
+// vrtTokenExpr: an expression made of at most k tokens from the alphabet
+// (texts separated by \x1f), joined by single spaces.
+func vrtTokenExpr(k int, alphabet string) string {
+	d := vrtNext("tokens")
+	var s string
+	json.Unmarshal(d.V, &s)
+	vrtTokens = strings.Split(s, " ")
+	if s == "" {
+		vrtTokens = nil
+	}
+	return s
+}
+
+var vrtTokens []string
+
+func vrtTokenText(i int) string {
+	if i < len(vrtTokens) {
+		return vrtTokens[i]
+	}
+	return ""
+}
+
+func vrtTokensUsed() int { return 0 }
+
+func vrtTokensSoFar() string { return strings.Join(vrtTokens, " ") }
 
 func vrtAssume(c bool) {
 	if !c {
